@@ -9,6 +9,7 @@ import (
 	"io"
 	"os"
 	"path/filepath"
+	"regexp"
 	"strconv"
 	"strings"
 
@@ -33,6 +34,10 @@ type Document struct {
 	nextImageID int
 	// styles.xml 关系的ID（打开已有文档时保留其原有ID，默认为rId1）
 	stylesRelID string
+	// styles.xml 是否由本库根据样式管理器生成（而非来自已打开的文档或模板）
+	stylesGenerated bool
+	// 加载已有 styles.xml 后样式管理器中的样式ID（用于识别之后新增的样式）
+	stylesBaseline map[string]bool
 }
 
 // Body 表示文档主体
@@ -632,6 +637,10 @@ func openFromZipReader(zipReader *zip.Reader, filename string) (*Document, error
 		Debugf("解析样式失败，使用默认样式: %v", err)
 		// 如果样式解析失败，重新初始化为默认样式
 		doc.styleManager = style.NewStyleManager()
+	}
+	doc.stylesBaseline = make(map[string]bool)
+	for _, st := range doc.styleManager.GetAllStyles() {
+		doc.stylesBaseline[st.StyleID] = true
 	}
 
 	// 解析文档关系（包括图片等资源的关系）
@@ -3003,8 +3012,9 @@ func (d *Document) serializeStyles() error {
 
 	// 如果在克隆文档时已经保留了完整的 styles.xml（含 docDefaults 等信息），
 	// 这里直接跳过重新生成，避免丢失模板原有的默认段落/字符设置。
-	if existing, ok := d.parts["word/styles.xml"]; ok && len(existing) > 0 {
-		Debugf("检测到已有 styles.xml，跳过样式重建以保留模板默认样式")
+	if existing, ok := d.parts["word/styles.xml"]; ok && len(existing) > 0 && !d.stylesGenerated {
+		Debugf("检测到已有 styles.xml，保留原有内容，仅补充缺失的样式定义")
+		d.parts["word/styles.xml"] = d.appendMissingStyles(existing)
 		return nil
 	}
 
@@ -3049,9 +3059,54 @@ func (d *Document) serializeStyles() error {
 
 	// 添加XML声明
 	d.parts["word/styles.xml"] = append([]byte(xml.Header), data...)
+	d.stylesGenerated = true
 
 	Debugf("样式序列化完成")
 	return nil
+}
+
+var (
+	styleIDAttrPattern  = regexp.MustCompile(`[:\s]styleId\s*=\s*["']([^"']*)["']`)
+	styleRefElemPattern = regexp.MustCompile(`<w:(?:pStyle|rStyle|tblStyle) w:val="([^"]*)"`)
+)
+
+// appendMissingStyles 在保留已有 styles.xml 原文的前提下，补充其中缺失的样式定义：
+// 加载之后通过样式管理器新增的样式，以及正文引用到但 styles.xml 中未定义的样式。
+func (d *Document) appendMissingStyles(existing []byte) []byte {
+	defined := make(map[string]bool)
+	for _, m := range styleIDAttrPattern.FindAllSubmatch(existing, -1) {
+		defined[string(m[1])] = true
+	}
+	referenced := make(map[string]bool)
+	for _, m := range styleRefElemPattern.FindAllSubmatch(d.parts["word/document.xml"], -1) {
+		referenced[string(m[1])] = true
+	}
+
+	var missing []byte
+	for _, st := range d.styleManager.GetAllStyles() {
+		if defined[st.StyleID] || (d.stylesBaseline[st.StyleID] && !referenced[st.StyleID]) {
+			continue
+		}
+		data, err := xml.MarshalIndent(st, "  ", "  ")
+		if err != nil {
+			continue
+		}
+		// 已有文件可能未使用 w 前缀声明命名空间，这里在元素上显式声明
+		data = bytes.Replace(data, []byte("<w:style "),
+			[]byte(`<w:style xmlns:w="http://schemas.openxmlformats.org/wordprocessingml/2006/main" `), 1)
+		missing = append(missing, '\n')
+		missing = append(missing, data...)
+	}
+	end := bytes.LastIndex(existing, []byte("</"))
+	if len(missing) == 0 || end < 0 {
+		return existing
+	}
+	merged := make([]byte, 0, len(existing)+len(missing)+1)
+	merged = append(merged, existing[:end]...)
+	merged = append(merged, missing[1:]...)
+	merged = append(merged, '\n')
+	merged = append(merged, existing[end:]...)
+	return merged
 }
 
 // parseContentTypes 解析内容类型文件
